@@ -24,6 +24,9 @@ SEQS = {
     "F_2004":   "ACGTTCGTTAGCCGTTGGCTAGGCTTTACGGATCCATTTACGGCTTCCAT",
 }
 ROOTED = "((((E_2004:1,F_2004:1):1,D_2003:1):3,(C_2002.5:2,B_2001:0.5):1.5):1,A_2000:2);"
+# same topology, branch lengths in substitutions (about 0.01 per year, deliberately not clock-like): root-to-tip regression
+ROOTED_SUBST = ("((((E_2004:0.011,F_2004:0.0095):0.0105,D_2003:0.0088):0.031,(C_2002.5:0.0215,B_2001:0.0042):0.0148):0.0112,"
+                "A_2000:0.0192);")
 UNROOTED = "(A_2000:0.1,B_2001:0.2,(C_2002.5:0.1,(D_2003:0.1,(E_2004:0.15,F_2004:0.05):0.1):0.1):0.1);"
 
 _DATA = {}
@@ -34,6 +37,7 @@ def data_dir() -> Path:
         d = Path(tempfile.mkdtemp(prefix="c19-data-"))
         (d / "aln.fa").write_text("".join(f">{k}\n{v}\n" for k, v in SEQS.items()))
         (d / "rooted.nwk").write_text(ROOTED + "\n")
+        (d / "rooted_subst.nwk").write_text(ROOTED_SUBST + "\n")
         (d / "unrooted.nwk").write_text(UNROOTED + "\n")
         _DATA["d"] = d
     return _DATA["d"]
